@@ -78,3 +78,7 @@ mod fft;
 mod proof_system;
 
 pub mod prelude;
+
+#[cfg(feature = "verif")]
+#[doc(hidden)]
+pub mod verif;
